@@ -2,6 +2,7 @@
 import glob
 from tbxlint.facts import extract, AnalysisBroken, MODULES
 from tbxlint import locks, q, exc, own, rd
+from tbxlint import harden
 
 T = 'tbox::terminal::Terminal::Impl'
 TEL = 'tbox::terminal::Telnetd::Impl'
@@ -385,4 +386,6 @@ def run(ctx):
     ctx.guard(r5, ctx, prog)
     ctx.guard(r6, ctx, prog)
     ctx.guard(r7, ctx, prog)
+    ctx.guard(harden.run, ctx, prog, 'C13.R8', input_entries(prog),
+              lambda g: g.file.startswith(MODULES + '/terminal/') or g.file.startswith(MODULES + '/util/'), 'terminal input path')
     return prog
